@@ -50,6 +50,15 @@ var (
 	backend      = flag.String("backend", "", "URL of the backend server for the TCP-over-WS bridge")
 )
 
+// closeWrite half-closes the given connection if it supports that, and closes it otherwise.
+func closeWrite(conn net.Conn) {
+	if cw, ok := conn.(interface{ CloseWrite() error }); ok {
+		cw.CloseWrite()
+		return
+	}
+	conn.Close()
+}
+
 func main() {
 	flag.Parse()
 	backendURL, err := url.Parse(*backend)
@@ -81,13 +90,18 @@ func main() {
 
 			var wg sync.WaitGroup
 			wg.Add(2)
+			// When one side has finished sending, tell the other side (after all of the data),
+			// so that a close of either peer is propagated instead of being held back until the
+			// other peer happens to close too.
 			go func() {
 				defer wg.Done()
 				io.Copy(backendConn, conn)
+				closeWrite(backendConn)
 			}()
 			go func() {
 				defer wg.Done()
 				io.Copy(conn, backendConn)
+				closeWrite(conn)
 			}()
 			wg.Wait()
 		}()
